@@ -3,10 +3,10 @@ package rt
 // Fresh-process execution of one history / schedule: the worker re-executes its own test binary.
 
 import (
-	"io/ioutil"
 	"bytes"
 	"encoding/json"
 	"fmt"
+	"io/ioutil"
 	"os"
 	"os/exec"
 	"strings"
